@@ -1,4 +1,5 @@
 import KmipProps.C04
+import KmipProps.C03
 import KmipModel.Stream
 import KmipProofs.IoLemmas
 import KmipProofs.IoStackLemmas
@@ -489,6 +490,46 @@ example : viewS (Stk.decodeSrc exPV exPVsrc) = .ok (.struct [.one (.int 1), .one
 def pvBytes (a b : UInt8) : Bytes :=
   [0x42, 0x00, 0x69, 0x01, 0, 0, 0, 0x20, 0x42, 0x00, 0x6A, 0x02, 0, 0, 0, 4, 0, 0, 0, a, 0, 0, 0, 0,
    0x42, 0x00, 0x6B, 0x02, 0, 0, 0, 4, 0, 0, 0, b, 0, 0, 0, 0]
+
+/-- C04 over a real transport: a fresh Decoder on a transport fragmenting its bytes in any way accepts exactly the streams that begin
+    with a well-formed encoding (the independent reader `specDecode` of the flat bytes), with the value and the length it denotes -/
+theorem C04_equiv_over_any_transport (sd : SD) (src : Io.Src) (hi : (Io.Stack.top src).Inv) (v : Val) (n : Nat) :
+    (∃ x, Stk.decodeSrc sd src = .ok (v, n, x)) ↔ specDecode sd src.flat = some (v, n) := by
+  have hv := C06_decode_over_any_chunking sd src hi
+  rw [← C04_equiv sd src.flat src.fin v n]
+  constructor
+  · rintro ⟨x, h⟩
+    rw [h] at hv
+    cases hD : decodeSD sd src.flat src.fin with
+    | ok r =>
+      obtain ⟨v', n', d'⟩ := r
+      rw [hD] at hv
+      simp only [viewS, viewD, Outcome.ok.injEq, Prod.mk.injEq] at hv
+      exact ⟨d', by rw [hv.1, hv.2.1]⟩
+    | err e => rw [hD] at hv; simp [viewS, viewD] at hv
+    | panic p => rw [hD] at hv; simp [viewS, viewD] at hv
+  · rintro ⟨d', h⟩
+    rw [h] at hv
+    cases hS : Stk.decodeSrc sd src with
+    | ok r =>
+      obtain ⟨v', n', x⟩ := r
+      rw [hS] at hv
+      simp only [viewS, viewD, Outcome.ok.injEq, Prod.mk.injEq] at hv
+      exact ⟨x, by rw [hv.1, hv.2.1]⟩
+    | err e => rw [hS] at hv; simp [viewS, viewD] at hv
+    | panic p => rw [hS] at hv; simp [viewS, viewD] at hv
+
+/-- C03 over a real transport: whatever the bytes and however they are fragmented, Decode through the reader stack does not panic
+    (and, being a structurally recursive total function with every loop bounded by a fuel the proofs show sufficient, returns) -/
+theorem C03_no_panic_over_any_transport (sd : SD) (src : Io.Src) (hi : (Io.Stack.top src).Inv) :
+    ∀ p, Stk.decodeSrc sd src ≠ .panic p := by
+  intro p hp
+  have hv := C06_decode_over_any_chunking sd src hi
+  rw [hp] at hv
+  cases hD : decodeSD sd src.flat src.fin with
+  | ok r => rw [hD] at hv; simp [viewS, viewD] at hv
+  | err e => rw [hD] at hv; simp [viewS, viewD] at hv
+  | panic q => exact C03_no_panic (.ptrStruct sd) src.flat src.fin q hD
 
 /-- a message is whole if the stack decoder, fed the bytes in one read, decodes it and ends exactly at its end (through the
     simulation and the decoder/spec equivalence of C04) -/
